@@ -24,6 +24,12 @@ type PullOpts struct {
 	Plan      PlanFunc
 	MaxData   int64
 	ServerIsSender bool // expect statistics at the end (true for server-side senders)
+	// AsServer: the reference receiver is the server and the real party is a
+	// pushing client (daemon or command mode).
+	AsServer   bool
+	ServerSeed int32
+	ReadFilter bool // the pushing client sends a filter list first (--delete)
+	OptsFromArgs bool
 }
 
 type FileResult struct {
@@ -51,6 +57,9 @@ type PullResult struct {
 // Pull runs a complete receiving session against a real sender.
 func Pull(w *Wire, o PullOpts) (res *PullResult, err error) {
 	res = &PullResult{Stage: "handshake"}
+	if o.AsServer {
+		return pullAsServer(w, o, res)
+	}
 	if o.Daemon {
 		res.Status, res.Lines, err = w.DaemonClientHandshake(o.Module, o.Args)
 		if err != nil {
@@ -70,6 +79,40 @@ func Pull(w *Wire, o PullOpts) (res *PullResult, err error) {
 	if err = w.Flush(); err != nil {
 		return res, err
 	}
+	return pullTransfer(w, o, res)
+}
+
+func pullAsServer(w *Wire, o PullOpts, res *PullResult) (*PullResult, error) {
+	var err error
+	if o.Daemon {
+		var args []string
+		_, args, err = w.DaemonServerHandshake("")
+		if err != nil {
+			return res, err
+		}
+		res.Lines = args
+		if o.OptsFromArgs {
+			var del bool
+			o.List, _, o.DryRun, del, _ = ArgOpts(args)
+			o.ReadFilter = del
+		}
+	}
+	res.Stage = "seed"
+	if err = w.ServerStart(o.ServerSeed, o.Negotiate); err != nil {
+		return res, err
+	}
+	res.Seed = o.ServerSeed
+	if o.ReadFilter {
+		res.Stage = "filters"
+		if _, err = w.ReadFilterList(); err != nil {
+			return res, err
+		}
+	}
+	return pullTransfer(w, o, res)
+}
+
+func pullTransfer(w *Wire, o PullOpts, res *PullResult) (*PullResult, error) {
+	var err error
 	res.Stage = "flist"
 	if res.List, err = w.ReadFileList(o.List); err != nil {
 		return res, err
